@@ -25,10 +25,11 @@ theorem at?_append {t : T} {q1 q2 : Path} {t1 : T} (h : t.at? q1 = some t1) : t.
       | none => simp [hk] at h
       | some c => simp only [hk] at h ⊢; exact ih h
 
-theorem anyKids_mem (pp : Path) (p : T) (sp : Path) (kids : List T)
-    (hIH : ∀ c ∈ kids, ∀ sp m, m ∈ anyNode pp p sp c → ∃ q sq, c.at? q = some sq ∧ m ∈ deep true pp p (sp ++ q) sq) :
-    ∀ j m, m ∈ anyKids pp p sp j kids →
-      ∃ idx c q sq, kids[idx]? = some c ∧ c.at? q = some sq ∧ m ∈ deep true pp p (sp ++ [j + idx] ++ q) sq := by
+theorem anyKids_mem (pf : String) (pp : Path) (p : T) (sp : Path) (kids : List T)
+    (hIH : ∀ c ∈ kids, ∀ sp m, m ∈ anyNode pf pp p sp c →
+      ∃ q sq, c.at? q = some sq ∧ m ∈ deep true pf pp p (sp ++ q) sq) :
+    ∀ j m, m ∈ anyKids pf pp p sp j kids →
+      ∃ idx c q sq, kids[idx]? = some c ∧ c.at? q = some sq ∧ m ∈ deep true pf pp p (sp ++ [j + idx] ++ q) sq := by
   induction kids with
   | nil => intro j m hm; rw [anyKids] at hm; cases hm
   | cons c cs ih =>
@@ -42,8 +43,8 @@ theorem anyKids_mem (pp : Path) (p : T) (sp : Path) (kids : List T)
       have : j + 1 + idx = j + (idx + 1) := by omega
       rw [← this]; exact h3
 
-theorem anyNode_mem (pp : Path) (p : T) : ∀ (s : T) (sp : Path) (m : AstMap), m ∈ anyNode pp p sp s →
-    ∃ q sq, s.at? q = some sq ∧ m ∈ deep true pp p (sp ++ q) sq := by
+theorem anyNode_mem (pf : String) (pp : Path) (p : T) : ∀ (s : T) (sp : Path) (m : AstMap),
+    m ∈ anyNode pf pp p sp s → ∃ q sq, s.at? q = some sq ∧ m ∈ deep true pf pp p (sp ++ q) sq := by
   intro s
   induction s using T.induct' with
   | h k f fl kids ih =>
@@ -52,7 +53,7 @@ theorem anyNode_mem (pp : Path) (p : T) : ∀ (s : T) (sp : Path) (m : AstMap), 
     simp only [List.mem_append] at hm
     rcases hm with hm | hm
     · exact ⟨[], _, rfl, by simpa using hm⟩
-    · obtain ⟨idx, c, q, sq, h1, h2, h3⟩ := anyKids_mem pp p sp kids ih 0 m hm
+    · obtain ⟨idx, c, q, sq, h1, h2, h3⟩ := anyKids_mem pf pp p sp kids ih 0 m hm
       refine ⟨idx :: q, sq, ?_, ?_⟩
       · simp only [T.at?, h1]; exact h2
       · simpa using h3
@@ -148,20 +149,7 @@ theorem c10_match_is_embedding (p s : T) (hp : opLeaves p = true) :
   simp only [findMatches, List.mem_map] at hmr
   obtain ⟨m, hm, rfl⟩ := hmr
   -- the trimmed pattern
-  obtain ⟨qp, hp1, hp2, hp3⟩ := trimGo_spec p []
-  simp only [List.nil_append] at hp1
-  have hpl : opLeaves (trimRoot p).1 = true := by
-    simp only [trimRoot]
-    split
-    · exact hp3 hp
-    · have := hp3 hp
-      revert this
-      cases (trimGo p []).1; intro h; simpa [T.setField, opLeaves] using h
-  have hpp : (trimRoot p).2 = (trimGo p []).2 := by simp only [trimRoot]; split <;> rfl
-  have hpt : (trimRoot p).1 = (trimGo p []).1 ∨ (trimRoot p).1 = (trimGo p []).1.setField "none" := by
-    simp only [trimRoot]; split
-    · exact Or.inl rfl
-    · exact Or.inr rfl
+  obtain ⟨qp, _, _, hp3⟩ := trimGo_spec p []
   -- the trimmed program
   obtain ⟨qs, hs1, hs2, _⟩ := trimGo_spec s []
   simp only [List.nil_append] at hs1
@@ -171,12 +159,12 @@ theorem c10_match_is_embedding (p s : T) (hp : opLeaves p = true) :
     · exact Or.inl rfl
     · exact Or.inr rfl
   -- where the match was found
-  obtain ⟨q, sq, hq1, hq2⟩ := anyNode_mem _ _ _ _ _ hm
-  have hg := deep_good _ hpl _ _ _ _ _ hq2
+  obtain ⟨q, sq, hq1, hq2⟩ := anyNode_mem _ _ _ _ _ _ hm
+  have hg := deep_good _ (hp3 hp) _ _ _ _ _ _ hq2
   have hroot := embAt_root hg.emb
   -- the partner as a node of the whole program
   have hat : ∃ sq', s.at? ((trimRoot s).2 ++ q) = some sq' ∧
-      embAt m (trimRoot p).2 (trimRoot p).1 ((trimRoot s).2 ++ q) sq' = true := by
+      embAt m (trimGo p []).2 (trimGo p []).1 ((trimRoot s).2 ++ q) sq' = true := by
     rw [hsp, hs1, at?_append hs2]
     rcases hst with e | e
     · rw [e] at hq1; exact ⟨sq, hq1, by rw [← hs1, ← hsp]; exact hg.emb⟩
@@ -193,18 +181,10 @@ theorem c10_match_is_embedding (p s : T) (hp : opLeaves p = true) :
         exact ⟨sq, hq1, by rw [← hs1, ← hsp]; exact hg.emb⟩
   obtain ⟨sq', hat1, hat2⟩ := hat
   simp only [IsEmbedding, checkMatch, hroot, hat1, stripWrappers_eq_trimGo, Bool.and_eq_true]
-  refine ⟨⟨⟨?_, ?_⟩, singleIdent_of_confInv hg.inv (hasConflicts_of_noconf hg.noconf)⟩, by simp [hg.noconf]⟩
-  · rw [← hpp]
-    rcases hpt with e | e
-    · rw [← e]; exact hat2
-    · rw [e, embAt_setField_p] at hat2; exact hat2
-  · simp only [expsOk, List.all_eq_true]
-    intro kv hkv
-    have := hg.exps kv hkv
-    rw [← hpp]
-    rcases hpt with e | e
-    · rw [← e]; exact this
-    · rw [e, expSomewhere_setField] at this; exact this
+  refine ⟨⟨⟨hat2, ?_⟩, singleIdent_of_confInv hg.inv (hasConflicts_of_noconf hg.noconf)⟩, by simp [hg.noconf]⟩
+  simp only [expsOk, List.all_eq_true]
+  intro kv hkv
+  exact hg.exps kv hkv
 
 /-! ### C10, second sentence: content that occurs nowhere yields no match -/
 
